@@ -48,8 +48,9 @@ static size_t build(uint8_t* buf) {
   }
   if (fam == 2) {
     // {"a":V,"b":W} / [V,W,X] with 2-byte symbolic values, optional escaped spelling of the key a
-    long arr = verif_param(3); long esc = verif_param(4);
+    long arr = verif_param(3); long esc = verif_param(4); long one = verif_param(5);   // param5 = 1: one-byte values
     uint8_t v[6]; verif_symbolic(v, 6, "vals");
+    if (one) { verif_assume(v[1] == ' ' && v[3] == ' ' && v[5] == ' '); }
     if (arr) { buf[o++] = '['; buf[o++] = v[0]; buf[o++] = v[1]; buf[o++] = ','; buf[o++] = v[2]; buf[o++] = v[3]; buf[o++] = ','; buf[o++] = v[4]; buf[o++] = v[5]; buf[o++] = ']'; }
     else {
       o = put(buf, o, esc ? "{\"\\u0061\":" : "{\"a\":"); buf[o++] = v[0]; buf[o++] = v[1];
